@@ -6,7 +6,11 @@ import Srtla.Lemmas.Control
 Property theorems only.  Quantification is over **every** decoded line (`Line`: blank,
 unparsable, or any `Request` with arbitrary strings / JSON values), every environment (stats
 provider and `CriticalWindow` present or not), every configuration, and every finite sequence of
-lines; the concurrency clause is over every schedule of the atomics model `Conc`.
+lines; the concurrency clauses (`C18_timeout_clamped_concurrent`, `C18_set_visible_concurrent*`) are
+over every schedule of the atomics model `Conc` (relaxed atomics with per-location coherence).
+Round 4 additions at the end of the file: sessions that may contain subscription calls
+(`C18_subscription_calls_keep_config`, `C18_sync_eq_async_config`, `C18_sync_eq_async_run_mixed`,
+`C18_set_visible_*_async`) and the concurrent visibility theorems.
 
 Vocabulary (defined in `Srtla/Lemmas/Control.lean`, all with the property's literal numbers):
 * `InRange t`        := `1000 ≤ t ∧ t ≤ 60000`
@@ -511,8 +515,9 @@ theorem C18_timeout_reply_echoes_stored (env : Env) (c : Config) (r : Request) (
 
 /-- **Every interleaving.**  `DynamicConfig` as independent relaxed atomic cells; any number of
 tasks calling setters (one store each, the timeout setter clamping first) and `snapshot()` (six
-separate loads in any order, each observing *any* value of the cell's modification order),
-scheduled arbitrarily.  From a configuration in range: every value ever stored in the timeout
+separate loads in any order, each observing any value of the cell's modification order that is not
+older than what the loading task has itself already stored or loaded — per-location coherence of
+relaxed atomics, round 4; before, *any* value), scheduled arbitrarily.  From a configuration in range: every value ever stored in the timeout
 cell, every timeout a reader has loaded into a snapshot under construction, every snapshot
 returned and every value returned by `set_conn_timeout_ms` is within 1000..60000, and the
 returned value is the clamp of the request. -/
@@ -681,5 +686,487 @@ example :
     ((dispatchAsync ⟨none, none⟩ Config.new (some Ctx.init)
       (.request ⟨"2.0", "nope", .null, some .null⟩)).2.2.map (·.jsonrpc)) = some "2.0" := by
   decide
+
+/-! ## Round 4 (P-C item 5): sessions that MAY contain subscription calls
+
+`C18_sync_eq_async_run` needs the whole session free of `subscribe` / `unsubscribe` /
+`get_subscription_count`, and the four `C18_set_visible_*` theorems are over `runSync`.  The three
+subscription methods never touch the configuration (with a context they are answered from the hub,
+without one they are "method not found"), so both restrictions can be dropped. -/
+
+/-- `subscribe`, `unsubscribe`, `get_subscription_count` leave the `Config` unchanged: on the socket
+entry point with or without a `SubscriptionContext`, and on stdin; any params, id, version. -/
+theorem C18_subscription_calls_keep_config (env : Env) (c : Config) (ctx : Option Ctx) (r : Request)
+    (hm : r.method = "subscribe" ∨ r.method = "unsubscribe" ∨ r.method = "get_subscription_count") :
+    (dispatchAsync env c ctx (.request r)).1 = c ∧ (dispatchInner env c (.request r)).1 = c :=
+  ⟨dispatchAsync_sub_config env c ctx r hm, dispatchInner_sub_config env c r hm⟩
+
+/-- A successful `subscribe` on the socket: the hub grows, the configuration does not move. -/
+example :
+    let out := dispatchAsync ⟨none, none⟩ Config.new (some Ctx.init)
+      (.request ⟨"2.0", "subscribe", .obj [("topic", .str "stats")], some (.num (.pos 1))⟩)
+    out.1 = Config.new ∧ (out.2.1.map (·.hub.entries)) = some [("sub-0", "stats")] ∧
+      code? out.2.2 = none := by decide
+
+/-- **Every line, every context**: the socket entry point changes the configuration exactly as the
+stdin entry point does (the two differ only in the RESPONSE to the three subscription methods and in
+the hub). -/
+theorem C18_sync_eq_async_config (env : Env) (c : Config) (ctx : Option Ctx) (l : Line) :
+    (dispatchAsync env c ctx l).1 = (dispatchInner env c l).1 :=
+  dispatchAsync_config_eq env c ctx l
+
+/-- **Whole sessions with ANY lines** (subscription calls included, from any hub state): the two entry
+points end in the same configuration, produce equally many outputs, and the k-th outputs are equal
+for every k whose line is not a version-2.0 subscription call — whatever the other lines are.
+(`C18_sync_eq_async_run` is the special case where no line is a subscription call.) -/
+theorem C18_sync_eq_async_run_mixed (c : Config) (ctx : Option Ctx) (ls : List (Env × Line)) :
+    (runAsync c ctx ls).1 = (runSync c ls).1 ∧
+    (runAsync c ctx ls).2.2.length = ls.length ∧ (runSync c ls).2.length = ls.length ∧
+    ∀ (k : Nat) (el : Env × Line), ls[k]? = some el →
+      (∀ r, el.2 = .request r → r.jsonrpc = "2.0" →
+        r.method ≠ "subscribe" ∧ r.method ≠ "unsubscribe" ∧ r.method ≠ "get_subscription_count") →
+      (runAsync c ctx ls).2.2[k]? = (runSync c ls).2[k]? := by
+  refine ⟨runAsync_config_eq c ctx ls, (runAsync_length c ctx ls).1, (runAsync_length c ctx ls).2, ?_⟩
+  intro k el hk h
+  exact runAsync_resp_eq c ctx ls k (fun el' hel => by rw [hk] at hel; cases hel; exact h)
+
+/-- Non-vacuity: a socket session `subscribe; set_mode classic; get_subscription_count; get_status`
+and the same four lines on stdin: same final configuration (mode 0); outputs 1 and 3 (0-based) agree,
+outputs 0 and 2 — the subscription calls — differ (success vs. -32601). -/
+example :
+    let e : Env := ⟨none, none⟩
+    let ls : List (Env × Line) :=
+      [(e, .request ⟨"2.0", "subscribe", .obj [("topic", .str "stats")], some (.num (.pos 1))⟩),
+       (e, .request ⟨"2.0", "set_mode", .obj [("mode", .str "classic")], some (.num (.pos 2))⟩),
+       (e, .request ⟨"2.0", "get_subscription_count", .null, some (.num (.pos 3))⟩),
+       (e, statusReq .null (.num (.pos 4)))]
+    (runAsync Config.new (some Ctx.init) ls).1.mode = 0 ∧ (runSync Config.new ls).1.mode = 0 ∧
+    (runAsync Config.new (some Ctx.init) ls).2.2.map code? = [none, none, none, none] ∧
+    (runSync Config.new ls).2.map code? = [some (-32601), none, some (-32601), none] := by decide
+
+/-! ### `set_*` is visible in the next status on the socket, across subscription calls
+
+Same statements as `C18_set_visible_*`, for the socket entry point from ANY context (none, or any hub
+/ owned-id state): `mid` is any sequence of further lines — blank, unparsable, requests of any kind
+INCLUDING `subscribe` / `unsubscribe` / `get_subscription_count`, under any environments — that does
+not call the same setter again; the status request is answered under whatever context `mid` left. -/
+
+theorem C18_set_visible_mode_async (env : Env) (c : Config) (ctx : Option Ctx) (r : Request) (md : Mode)
+    (hv : r.jsonrpc = "2.0") (hm : r.method = "set_mode")
+    (hp : (r.params.get "mode").bind Json.asStr = some md.toStr)
+    (mid : List (Env × Line))
+    (hmid : ∀ el ∈ mid, ∀ q, el.2 = .request q → q.method ≠ "set_mode")
+    (env' : Env) (p' i' : Json) :
+    let o1 := dispatchAsync env c ctx (.request r)
+    let o2 := runAsync o1.1 o1.2.1 mid
+    (∀ i, r.id = some i → o1.2.2 = some (Response.ok i (.obj [("mode", .str md.toStr)]))) ∧
+    o1.1.snapshot.mode = md ∧ o2.1.snapshot.mode = md ∧
+    ∃ st, (dispatchAsync env' o2.1 o2.2.1 (statusReq p' i')).2.2 = some (Response.ok i' st) ∧
+      st.get "mode" = some (.str md.toStr) := by
+  intro o1 o2
+  obtain ⟨a1, -, a3, a4, a5⟩ := async_session_lift env c ctx r (by rw [hm]; decide) mid env' p' i'
+  have hs := C18_set_visible_mode env c r md hv hm hp mid hmid env' p' i'
+  simp only [] at hs
+  exact ⟨by rw [show o1.2.2 = _ from a1]; exact hs.1, by rw [show o1.1 = _ from a3]; exact hs.2.1,
+    by rw [show o2.1 = _ from a4]; exact hs.2.2.1, by rw [a5]; exact hs.2.2.2⟩
+
+theorem C18_set_visible_quality_async (env : Env) (c : Config) (ctx : Option Ctx) (r : Request) (b : Bool)
+    (hv : r.jsonrpc = "2.0") (hm : r.method = "set_quality")
+    (hp : (r.params.get "enabled").bind Json.asBool = some b)
+    (mid : List (Env × Line))
+    (hmid : ∀ el ∈ mid, ∀ q, el.2 = .request q → q.method ≠ "set_quality")
+    (env' : Env) (p' i' : Json) :
+    let o1 := dispatchAsync env c ctx (.request r)
+    let o2 := runAsync o1.1 o1.2.1 mid
+    (∀ i, r.id = some i → o1.2.2 = some (Response.ok i (.obj [("enabled", .bool b)]))) ∧
+    o1.1.snapshot.quality = b ∧ o2.1.snapshot.quality = b ∧
+    ∃ st, (dispatchAsync env' o2.1 o2.2.1 (statusReq p' i')).2.2 = some (Response.ok i' st) ∧
+      st.get "quality_enabled" = some (.bool b) := by
+  intro o1 o2
+  obtain ⟨a1, -, a3, a4, a5⟩ := async_session_lift env c ctx r (by rw [hm]; decide) mid env' p' i'
+  have hs := C18_set_visible_quality env c r b hv hm hp mid hmid env' p' i'
+  simp only [] at hs
+  exact ⟨by rw [show o1.2.2 = _ from a1]; exact hs.1, by rw [show o1.1 = _ from a3]; exact hs.2.1,
+    by rw [show o2.1 = _ from a4]; exact hs.2.2.1, by rw [a5]; exact hs.2.2.2⟩
+
+theorem C18_set_visible_stall_deselect_async (env : Env) (c : Config) (ctx : Option Ctx) (r : Request) (b : Bool)
+    (hv : r.jsonrpc = "2.0") (hm : r.method = "set_stall_deselect")
+    (hp : (r.params.get "enabled").bind Json.asBool = some b)
+    (mid : List (Env × Line))
+    (hmid : ∀ el ∈ mid, ∀ q, el.2 = .request q → q.method ≠ "set_stall_deselect")
+    (env' : Env) (p' i' : Json) :
+    let o1 := dispatchAsync env c ctx (.request r)
+    let o2 := runAsync o1.1 o1.2.1 mid
+    (∀ i, r.id = some i → o1.2.2 = some (Response.ok i (.obj [("enabled", .bool b)]))) ∧
+    o1.1.snapshot.stall = b ∧ o2.1.snapshot.stall = b ∧
+    ∃ st, (dispatchAsync env' o2.1 o2.2.1 (statusReq p' i')).2.2 = some (Response.ok i' st) ∧
+      st.get "stall_deselect" = some (.bool b) := by
+  intro o1 o2
+  obtain ⟨a1, -, a3, a4, a5⟩ := async_session_lift env c ctx r (by rw [hm]; decide) mid env' p' i'
+  have hs := C18_set_visible_stall_deselect env c r b hv hm hp mid hmid env' p' i'
+  simp only [] at hs
+  exact ⟨by rw [show o1.2.2 = _ from a1]; exact hs.1, by rw [show o1.1 = _ from a3]; exact hs.2.1,
+    by rw [show o2.1 = _ from a4]; exact hs.2.2.1, by rw [a5]; exact hs.2.2.2⟩
+
+theorem C18_set_visible_conn_timeout_async (env : Env) (c : Config) (ctx : Option Ctx) (r : Request) (ms : Nat)
+    (hv : r.jsonrpc = "2.0") (hm : r.method = "set_conn_timeout")
+    (hp : (r.params.get "ms").bind Json.asU64 = some ms)
+    (mid : List (Env × Line))
+    (hmid : ∀ el ∈ mid, ∀ q, el.2 = .request q → q.method ≠ "set_conn_timeout")
+    (env' : Env) (p' i' : Json) :
+    let applied := clampU64 ms 1000 60000
+    let o1 := dispatchAsync env c ctx (.request r)
+    let o2 := runAsync o1.1 o1.2.1 mid
+    (∀ i, r.id = some i → o1.2.2 = some (Response.ok i (.obj [("ms", .num (.pos applied))]))) ∧
+    o1.1.snapshot.timeout = applied ∧ o2.1.snapshot.timeout = applied ∧
+    ∃ st, (dispatchAsync env' o2.1 o2.2.1 (statusReq p' i')).2.2 = some (Response.ok i' st) ∧
+      st.get "conn_timeout_ms" = some (.num (.pos applied)) := by
+  intro applied o1 o2
+  obtain ⟨a1, -, a3, a4, a5⟩ := async_session_lift env c ctx r (by rw [hm]; decide) mid env' p' i'
+  have hs := C18_set_visible_conn_timeout env c r ms hv hm hp mid hmid env' p' i'
+  simp only [] at hs
+  exact ⟨by rw [show o1.2.2 = _ from a1]; exact hs.1, by rw [show o1.1 = _ from a3]; exact hs.2.1,
+    by rw [show o2.1 = _ from a4]; exact hs.2.2.1, by rw [a5]; exact hs.2.2.2⟩
+
+/-- The hypotheses are satisfiable with subscription calls in between: on the socket,
+`set_conn_timeout {ms: 7}`, then `subscribe stats`, junk, `unsubscribe sub-0`,
+`get_subscription_count`; the status afterwards reports the clamped 1000. -/
+example :
+    let e : Env := ⟨none, none⟩
+    let r : Request := ⟨"2.0", "set_conn_timeout", .obj [("ms", .num (.pos 7))], none⟩
+    let mid : List (Env × Line) :=
+      [(e, .request ⟨"2.0", "subscribe", .obj [("topic", .str "stats")], some (.num (.pos 1))⟩),
+       (e, .unparsable),
+       (e, .request ⟨"2.0", "unsubscribe", .obj [("subscription_id", .str "sub-0")], some (.num (.pos 2))⟩),
+       (e, .request ⟨"2.0", "get_subscription_count", .null, none⟩)]
+    let o1 := dispatchAsync e Config.new (some Ctx.init) (.request r)
+    (runAsync o1.1 o1.2.1 mid).1.snapshot.timeout = 1000 :=
+  (C18_set_visible_conn_timeout_async ⟨none, none⟩ Config.new (some Ctx.init) _ 7 rfl rfl
+    (by simp [Json.get, Json.asU64]) _ (by simp) ⟨none, none⟩ .null .null).2.2.1
+
+/-! ## Round 4 (P-C item 6): a successful setter is visible to the SAME task under every interleaving
+
+The `Conc` model now carries per-task, per-cell coherence (`Conc.seen`, see `Model/Control.lean`): a
+load returns an entry of the cell's modification order that is not older than the newest entry the
+loading task has itself stored or loaded — read-read and write-read coherence, which is what
+`Ordering::Relaxed` guarantees per atomic object.  (`C18_timeout_clamped_concurrent`,
+`C18_timeout_concurrent_reply_is_store` and the torn-snapshot example above are theorems of this
+refined model.)  With it the concurrent form of "a successful `set_*` is visible in the next status
+and snapshot" can be stated and holds: after task `t`'s setter has stored `v` to cell `f`, everything
+`t` later reads from `f` — each load, the field of its snapshot under construction, hence of every
+`ConfigSnapshot` / `get_status` it gets back — is `v` or an entry NEWER in the modification order,
+i.e. `v` is visible to `t` unless a later store to the same cell (another task's setter, or `t`'s own
+next one) superseded it.  Nothing is claimed for OTHER tasks' reads (no happens-before between tasks
+is modelled; with relaxed atomics another thread may keep seeing the old value for a while). -/
+
+/-- **Generic form.**  From ANY state `s0` (in particular any reachable one) in which task `t` is
+inside a setter `op` about to store `v` to cell `f`: the store is enabled; it puts `v` on top of the
+cell's history; and after ANY further schedule `mid` the history of the cell is
+`newer ++ v :: old` (`old` = the history `t` stored on top of, `newer` = stores made during `mid`),
+and
+* every load of `f` that `t` can perform reads `v` or a member of `newer` (index `k ≤ |newer|`);
+* whatever `t`'s snapshot under construction holds for `f` is `v` or a member of `newer`;
+* in particular, if no store hit the cell during `mid` (`newer = []`) both are exactly `v`. -/
+theorem C18_set_visible_concurrent (s0 : Conc) (t : Nat) (op : Op) (f : Field) (v : Val)
+    (htask : s0.tasks t = .storing op) (hf : op.target = some (f, v)) :
+    ∃ s1 ev, s0.step (.store t) = some (s1, ev) ∧
+      s1.cells.view f = v :: s0.cells.view f ∧ s1.tasks t = .idle ∧
+      ∀ mid : List Act, ∃ newer, (s1.run mid).1.cells.view f = newer ++ v :: s0.cells.view f ∧
+        (∀ k s3 ev', (s1.run mid).1.step (.load t f k) = some (s3, ev') →
+          k ≤ newer.length ∧
+          ∃ x, ((s1.run mid).1.cells.view f)[k]? = some x ∧ (x = v ∨ x ∈ newer)) ∧
+        (∀ part x, (s1.run mid).1.tasks t = .snapping part → part.at? f = some x →
+          (x = v ∨ x ∈ newer)) ∧
+        (newer = [] → ∀ part x, (s1.run mid).1.tasks t = .snapping part → part.at? f = some x → x = v) := by
+  obtain ⟨s1, ev, hstep⟩ := Conc.step_store_enabled htask hf
+  obtain ⟨hvis, hview, hidle⟩ := Conc.Vis.of_store htask hf hstep
+  refine ⟨s1, ev, hstep, hview, hidle, ?_⟩
+  intro mid
+  have hv := hvis.run mid
+  obtain ⟨⟨newer, hh⟩, hlo, hhi, hpart⟩ := hv
+  have hlen : (s1.run mid).1.cells.len f = newer.length + 1 + (s0.cells.view f).length := by
+    unfold Cells.len; rw [hh]; simp; omega
+  have hp2 : ∀ part x, (s1.run mid).1.tasks t = .snapping part → part.at? f = some x →
+      (x = v ∨ x ∈ newer) := fun part x hp hx =>
+    Conc.Vis.at_mem hh hlo (hpart part x hp hx)
+  refine ⟨newer, hh, ?_, hp2, ?_⟩
+  · intro k s3 ev' hload
+    obtain ⟨-, -, x, -, hx, hle, -⟩ := Conc.step_load_spec hload
+    have hk : k < (s1.run mid).1.cells.len f := (Cells.at?_of_index _ f k x hx).1
+    have hk2 : k ≤ newer.length := by omega
+    refine ⟨hk2, x, hx, ?_⟩
+    rw [hh] at hx
+    exact index_newer_or_self hk2 hx
+  · intro hnil part x hp hx
+    rcases hp2 part x hp hx with h | h
+    · exact h
+    · rw [hnil] at h; cases h
+
+/-- **`set_mode`, typed, at the snapshot the task gets back.**  After `t`'s `set_mode md` has stored,
+whatever the other tasks do, every `ConfigSnapshot` (`get_status`) later returned to `t` has
+`mode = md`, or the mode some LATER store to the mode cell wrote; with no later store, `mode = md`. -/
+theorem C18_set_visible_concurrent_mode (s0 : Conc) (t : Nat) (md : Mode)
+    (htask : s0.tasks t = .storing (.setMode md)) :
+    ∃ s1, s0.step (.store t) = some (s1, none) ∧ s1.cells.mode = md.asU8 :: s0.cells.mode ∧
+      ∀ (mid : List Act) (s3 : Conc) (snap : Snapshot),
+        (s1.run mid).1.step (.ret t) = some (s3, some (.snapshot t snap)) →
+        ∃ newer, (s1.run mid).1.cells.mode = newer ++ md.asU8 :: s0.cells.mode ∧
+          (snap.mode = md ∨ ∃ m ∈ newer, snap.mode = Mode.fromU8 m) ∧
+          (newer = [] → snap.mode = md) := by
+  obtain ⟨s1, ev, hstep, -, -, hmid⟩ :=
+    C18_set_visible_concurrent s0 t _ .mode (.nat md.asU8) htask rfl
+  have hev : ev = none ∧ s1.cells.mode = md.asU8 :: s0.cells.mode := by
+    simp only [Conc.step, htask, Option.some.injEq, Prod.mk.injEq] at hstep
+    obtain ⟨rfl, rfl⟩ := hstep; exact ⟨rfl, rfl⟩
+  refine ⟨s1, by rw [hstep, hev.1], hev.2, ?_⟩
+  intro mid s3 snap hret
+  obtain ⟨newerV, hh, -, hp, -⟩ := hmid mid
+  obtain ⟨newer, h1, h2⟩ := map_split Val.nat Val.nat_inj s0.cells.mode md.asU8 newerV
+    (s1.run mid).1.cells.mode hh
+  obtain ⟨part, snap', htk, hcomp, -, -, -, hev'⟩ := Conc.step_ret_spec hret
+  cases hev'
+  obtain ⟨⟨m, hm, hsm⟩, -⟩ := Partial.complete_at hcomp
+  have key : snap.mode = md ∨ ∃ m ∈ newer, snap.mode = Mode.fromU8 m := by
+    rcases hp part _ htk hm with h | h
+    · exact .inl (by rw [hsm, Val.nat_inj _ _ h, Mode.fromU8_asU8])
+    · rw [h2] at h
+      obtain ⟨m', hm', he⟩ := List.mem_map.1 h
+      cases he
+      exact .inr ⟨m, hm', hsm⟩
+  refine ⟨newer, h1, key, ?_⟩
+  intro hnil
+  rcases key with h | ⟨m', hm', -⟩
+  · exact h
+  · rw [hnil] at hm'; cases hm'
+
+/-- **`set_quality`**, same statement. -/
+theorem C18_set_visible_concurrent_quality (s0 : Conc) (t : Nat) (b : Bool)
+    (htask : s0.tasks t = .storing (.setQuality b)) :
+    ∃ s1, s0.step (.store t) = some (s1, none) ∧ s1.cells.quality = b :: s0.cells.quality ∧
+      ∀ (mid : List Act) (s3 : Conc) (snap : Snapshot),
+        (s1.run mid).1.step (.ret t) = some (s3, some (.snapshot t snap)) →
+        ∃ newer, (s1.run mid).1.cells.quality = newer ++ b :: s0.cells.quality ∧
+          (snap.quality = b ∨ snap.quality ∈ newer) ∧ (newer = [] → snap.quality = b) := by
+  obtain ⟨s1, ev, hstep, -, -, hmid⟩ :=
+    C18_set_visible_concurrent s0 t _ .quality (.bool b) htask rfl
+  have hev : ev = none ∧ s1.cells.quality = b :: s0.cells.quality := by
+    simp only [Conc.step, htask, Option.some.injEq, Prod.mk.injEq] at hstep
+    obtain ⟨rfl, rfl⟩ := hstep; exact ⟨rfl, rfl⟩
+  refine ⟨s1, by rw [hstep, hev.1], hev.2, ?_⟩
+  intro mid s3 snap hret
+  obtain ⟨newerV, hh, -, hp, -⟩ := hmid mid
+  obtain ⟨newer, h1, h2⟩ := map_split Val.bool Val.bool_inj s0.cells.quality b newerV
+    (s1.run mid).1.cells.quality hh
+  obtain ⟨part, snap', htk, hcomp, -, -, -, hev'⟩ := Conc.step_ret_spec hret
+  cases hev'
+  obtain ⟨-, hq, -, -⟩ := Partial.complete_at hcomp
+  have key : snap.quality = b ∨ snap.quality ∈ newer := by
+    rcases hp part _ htk hq with h | h
+    · exact .inl (Val.bool_inj _ _ h)
+    · rw [h2] at h
+      obtain ⟨m', hm', he⟩ := List.mem_map.1 h
+      cases he
+      exact .inr hm'
+  refine ⟨newer, h1, key, ?_⟩
+  intro hnil
+  rcases key with h | h
+  · exact h
+  · rw [hnil] at h; cases h
+
+/-- **`set_stall_deselect`**, same statement. -/
+theorem C18_set_visible_concurrent_stall_deselect (s0 : Conc) (t : Nat) (b : Bool)
+    (htask : s0.tasks t = .storing (.setStall b)) :
+    ∃ s1, s0.step (.store t) = some (s1, none) ∧ s1.cells.stall = b :: s0.cells.stall ∧
+      ∀ (mid : List Act) (s3 : Conc) (snap : Snapshot),
+        (s1.run mid).1.step (.ret t) = some (s3, some (.snapshot t snap)) →
+        ∃ newer, (s1.run mid).1.cells.stall = newer ++ b :: s0.cells.stall ∧
+          (snap.stall = b ∨ snap.stall ∈ newer) ∧ (newer = [] → snap.stall = b) := by
+  obtain ⟨s1, ev, hstep, -, -, hmid⟩ :=
+    C18_set_visible_concurrent s0 t _ .stall (.bool b) htask rfl
+  have hev : ev = none ∧ s1.cells.stall = b :: s0.cells.stall := by
+    simp only [Conc.step, htask, Option.some.injEq, Prod.mk.injEq] at hstep
+    obtain ⟨rfl, rfl⟩ := hstep; exact ⟨rfl, rfl⟩
+  refine ⟨s1, by rw [hstep, hev.1], hev.2, ?_⟩
+  intro mid s3 snap hret
+  obtain ⟨newerV, hh, -, hp, -⟩ := hmid mid
+  obtain ⟨newer, h1, h2⟩ := map_split Val.bool Val.bool_inj s0.cells.stall b newerV
+    (s1.run mid).1.cells.stall hh
+  obtain ⟨part, snap', htk, hcomp, -, -, -, hev'⟩ := Conc.step_ret_spec hret
+  cases hev'
+  obtain ⟨-, -, hq, -⟩ := Partial.complete_at hcomp
+  have key : snap.stall = b ∨ snap.stall ∈ newer := by
+    rcases hp part _ htk hq with h | h
+    · exact .inl (Val.bool_inj _ _ h)
+    · rw [h2] at h
+      obtain ⟨m', hm', he⟩ := List.mem_map.1 h
+      cases he
+      exact .inr hm'
+  refine ⟨newer, h1, key, ?_⟩
+  intro hnil
+  rcases key with h | h
+  · exact h
+  · rw [hnil] at h; cases h
+
+/-- **`set_conn_timeout`**: what becomes visible is the CLAMPED value the call returned
+(`timeoutApplied t ms applied`), or a later store's (also clamped, `C18_timeout_clamped_concurrent`). -/
+theorem C18_set_visible_concurrent_conn_timeout (s0 : Conc) (t ms : Nat)
+    (htask : s0.tasks t = .storing (.setTimeout ms)) :
+    let applied := clampU64 ms 1000 60000
+    ∃ s1, s0.step (.store t) = some (s1, some (.timeoutApplied t ms applied)) ∧
+      s1.cells.timeout = applied :: s0.cells.timeout ∧
+      ∀ (mid : List Act) (s3 : Conc) (snap : Snapshot),
+        (s1.run mid).1.step (.ret t) = some (s3, some (.snapshot t snap)) →
+        ∃ newer, (s1.run mid).1.cells.timeout = newer ++ applied :: s0.cells.timeout ∧
+          (snap.timeout = applied ∨ snap.timeout ∈ newer) ∧ (newer = [] → snap.timeout = applied) := by
+  intro applied
+  have happ : clampU64 ms Cfg.CONN_TIMEOUT_MS_MIN Cfg.CONN_TIMEOUT_MS_MAX = applied := by
+    simp [applied, Cfg.CONN_TIMEOUT_MS_MIN_eq, Cfg.CONN_TIMEOUT_MS_MAX_eq]
+  obtain ⟨s1, ev, hstep, -, -, hmid⟩ :=
+    C18_set_visible_concurrent s0 t _ .timeout (.nat applied) htask
+      (by show some (Field.timeout, Val.nat (clampU64 ms _ _)) = _; rw [happ])
+  have hev : ev = some (.timeoutApplied t ms applied) ∧ s1.cells.timeout = applied :: s0.cells.timeout := by
+    simp only [Conc.step, htask, Option.some.injEq, Prod.mk.injEq, happ] at hstep
+    obtain ⟨rfl, rfl⟩ := hstep; exact ⟨rfl, rfl⟩
+  refine ⟨s1, by rw [hstep, hev.1], hev.2, ?_⟩
+  intro mid s3 snap hret
+  obtain ⟨newerV, hh, -, hp, -⟩ := hmid mid
+  obtain ⟨newer, h1, h2⟩ := map_split Val.nat Val.nat_inj s0.cells.timeout applied newerV
+    (s1.run mid).1.cells.timeout hh
+  obtain ⟨part, snap', htk, hcomp, -, -, -, hev'⟩ := Conc.step_ret_spec hret
+  cases hev'
+  obtain ⟨-, -, -, hq⟩ := Partial.complete_at hcomp
+  have key : snap.timeout = applied ∨ snap.timeout ∈ newer := by
+    rcases hp part _ htk hq with h | h
+    · exact .inl (Val.nat_inj _ _ h)
+    · rw [h2] at h
+      obtain ⟨m', hm', he⟩ := List.mem_map.1 h
+      cases he
+      exact .inr hm'
+  refine ⟨newer, h1, key, ?_⟩
+  intro hnil
+  rcases key with h | h
+  · exact h
+  · rw [hnil] at h; cases h
+
+/-- Non-vacuity / what coherence buys.  Task 1 sets the timeout to 5 (clamped 1000) and then takes a
+snapshot: loading the timeout at index 1 (the initial 5000 — STALE, older than its own store) is now
+disabled, so the same schedule with index 1 returns no snapshot at all, while index 0 returns 1000;
+another task (task 0) may still read the stale 5000 after the store. -/
+example :
+    let pre : List Act := [.call 1 (.setTimeout 5), .store 1, .call 1 .snapshot, .call 0 .snapshot]
+    let rest (t : Nat) : List Act :=
+      [.load t .mode 0, .load t .quality 0, .load t .stall 0, .load t .minInFlight 0,
+       .load t .ackStale 0, .ret t]
+    -- task 1, stale index: the load is refused, `ret` not enabled (timeout never loaded)
+    ((Conc.init Config.new).run (pre ++ [.load 1 .timeout 1] ++ rest 1)).2 =
+      [.timeoutApplied 1 5 1000] ∧
+    -- task 1, newest entry: sees its own store
+    ((Conc.init Config.new).run (pre ++ [.load 1 .timeout 0] ++ rest 1)).2 =
+      [.timeoutApplied 1 5 1000, .snapshot 1 ⟨.enhanced, true, true, 32, 3000, 1000⟩] ∧
+    -- task 0 has seen nothing of the cell: the stale 5000 is a legal relaxed read for IT
+    ((Conc.init Config.new).run (pre ++ [.load 0 .timeout 1] ++ rest 0)).2 =
+      [.timeoutApplied 1 5 1000, .snapshot 0 ⟨.enhanced, true, true, 32, 3000, 5000⟩] := by
+  refine ⟨rfl, rfl, rfl⟩
+
+/-- The hypothesis of the theorems is reachable (`task 1` inside `set_conn_timeout 5` from the
+initial state), and an intervening setter of ANOTHER task is what makes `newer` non-empty: task 1 then
+legitimately reads task 2's 2000 — the second disjunct. -/
+example :
+    ((Conc.init Config.new).run [.call 1 (.setTimeout 5)]).1.tasks 1 matches .storing (.setTimeout 5) ∧
+    ((Conc.init Config.new).run
+      [.call 1 (.setTimeout 5), .store 1, .call 2 (.setTimeout 2000), .store 2, .call 1 .snapshot,
+       .load 1 .timeout 0, .load 1 .mode 0, .load 1 .quality 0, .load 1 .stall 0,
+       .load 1 .minInFlight 0, .load 1 .ackStale 0, .ret 1]).2 =
+      [.timeoutApplied 1 5 1000, .timeoutApplied 2 2000 2000,
+       .snapshot 1 ⟨.enhanced, true, true, 32, 3000, 2000⟩] := by
+  refine ⟨rfl, rfl⟩
+
+/-- **Whole-schedule form, from the initial state.**  Take any configuration `c` and any schedule
+`pre ++ .store t :: mid` such that after `pre` task `t` is inside a setter about to store `v` to cell
+`f`.  Then at the end the history of the cell is `newer ++ v :: old` (`old` = its history after `pre`,
+`newer` = the stores of `mid`), the trace of returned values is the trace of `pre` followed by
+`later`, and EVERY `ConfigSnapshot` returned to `t` in `later` — i.e. after its setter's store, at any
+point of `mid`, whatever all the other tasks did in between — holds for `f` the value `v` or a value
+of `newer`.  (`Snapshot.has` reads the typed field: e.g. `snap.has .timeout (.nat n) ↔ snap.timeout = n`,
+`snap.has .mode (.nat m) ↔ snap.mode = Mode.fromU8 m`.) -/
+theorem C18_set_visible_concurrent_run (c : Config) (pre mid : List Act) (t : Nat) (op : Op)
+    (f : Field) (v : Val)
+    (htask : ((Conc.init c).run pre).1.tasks t = .storing op) (hf : op.target = some (f, v)) :
+    let s0 := ((Conc.init c).run pre).1
+    let fin := (Conc.init c).run (pre ++ .store t :: mid)
+    ∃ newer later, fin.1.cells.view f = newer ++ v :: s0.cells.view f ∧
+      fin.2 = ((Conc.init c).run pre).2 ++ later ∧
+      ∀ snap, Event.snapshot t snap ∈ later → ∃ x, snap.has f x ∧ (x = v ∨ x ∈ newer) := by
+  intro s0 fin
+  obtain ⟨s1, ev, hstep⟩ := Conc.step_store_enabled htask hf
+  obtain ⟨hvis, hview, hidle⟩ := Conc.Vis.of_store htask hf hstep
+  have hstep' : s0.step (.store t) = some (s1, ev) := hstep
+  have hrun0 : s0.run (.store t :: mid) = ((s1.run mid).1, ev.toList ++ (s1.run mid).2) := by
+    simp only [Conc.run, hstep']
+    cases ev <;> rfl
+  have hfin : fin = ((s1.run mid).1, ((Conc.init c).run pre).2 ++ (ev.toList ++ (s1.run mid).2)) := by
+    simp only [fin]
+    rw [Conc.run_append]
+    show ((s0.run (.store t :: mid)).1, _ ++ (s0.run (.store t :: mid)).2) = _
+    rw [hrun0]
+  obtain ⟨⟨newer, hh⟩, -⟩ := hvis.run mid
+  refine ⟨newer, _, by rw [hfin]; exact hh, by rw [hfin], ?_⟩
+  intro snap hsnap
+  have hin : Event.snapshot t snap ∈ (s1.run mid).2 := by
+    rcases List.mem_append.1 hsnap with h | h
+    · -- the store's own event is a `timeoutApplied`, never a snapshot
+      exfalso
+      simp only [Conc.step] at hstep'
+      split at hstep'
+      · rename_i op' _
+        cases op' <;> simp only [Option.some.injEq, Prod.mk.injEq, reduceCtorEq] at hstep'
+        all_goals obtain ⟨-, rfl⟩ := hstep'
+        all_goals simp at h
+      · cases hstep'
+    · exact h
+  obtain ⟨a1, a, a2, s3, hsplit, hemit⟩ := Conc.run_event hin
+  -- the emitting step is `ret t` from the state after `a1`
+  have hv1 := hvis.run a1
+  obtain ⟨⟨newer1, hh1⟩, hlo1, -, hpart1⟩ := hv1
+  have ha : a = .ret t := by
+    cases a with
+    | call t' op' => obtain ⟨_, _, he, _⟩ := Conc.step_call_spec hemit; cases he
+    | store t' =>
+      exfalso
+      simp only [Conc.step] at hemit
+      split at hemit
+      · rename_i op' _; cases op' <;> simp at hemit
+      · cases hemit
+    | load t' g k => obtain ⟨_, _, _, _, _, _, _, _, _, _, _, he⟩ := Conc.step_load_spec hemit; cases he
+    | ret t' =>
+      obtain ⟨_, _, _, _, _, _, _, he⟩ := Conc.step_ret_spec hemit
+      cases he; rfl
+  subst ha
+  obtain ⟨part, snap', htk, hcomp, -, -, -, he⟩ := Conc.step_ret_spec hemit
+  cases he
+  obtain ⟨x, hx, hhas⟩ := Partial.complete_has hcomp f
+  refine ⟨x, hhas, ?_⟩
+  rcases Conc.Vis.at_mem hh1 hlo1 (hpart1 part x htk hx) with h | h
+  · exact .inl h
+  · right
+    -- `newer1` is a suffix of `newer`: histories only grow
+    obtain ⟨ext, hext⟩ := Conc.run_view_grows (s1.run a1).1 (Act.ret t :: a2) f
+    have hrun : (s1.run mid).1 = ((s1.run a1).1.run (Act.ret t :: a2)).1 := by
+      rw [hsplit, Conc.run_append]
+    rw [← hrun, hh, hh1, ← List.append_assoc] at hext
+    have := List.append_cancel_right hext
+    rw [this]; exact List.mem_append_right _ h
+
+/-- Non-vacuity of the whole-schedule form: `pre = [call 1 (set_conn_timeout 5)]` leaves task 1 about
+to store; in `mid` task 2 stores 2000 and task 1 takes a snapshot.  `old = [5000]`, `v = 1000`,
+`newer = [2000]`; task 1's snapshot holds 2000 ∈ `newer`. -/
+example :
+    ((Conc.init Config.new).run [.call 1 (.setTimeout 5)]).1.tasks 1 matches .storing (.setTimeout 5) ∧
+    (Op.setTimeout 5).target = some (.timeout, .nat 1000) ∧
+    ((Conc.init Config.new).run ([.call 1 (.setTimeout 5)] ++ .store 1 ::
+      [.call 2 (.setTimeout 2000), .store 2, .call 1 .snapshot,
+       .load 1 .timeout 0, .load 1 .mode 0, .load 1 .quality 0, .load 1 .stall 0,
+       .load 1 .minInFlight 0, .load 1 .ackStale 0, .ret 1])).1.cells.timeout = [2000] ++ 1000 :: [5000] := by
+  refine ⟨rfl, by decide, rfl⟩
 
 end Srtla.Props.C18
